@@ -84,3 +84,12 @@ Theorem C13_check_is_scheck :
   forall s xs, check (shape s) xs (gone_of s) (rev (remits s)) = scheck s xs.
 Proof. exact check_is_scheck. Qed.
 Print Assumptions C13_check_is_scheck.
+
+(** At every reachable state of a loss-free run (not only at quiescence): what a layer has
+    emitted from its [next()] origin is a prefix of the sequential result on everything it has
+    received so far — never a duplicate, never out of order. *)
+Theorem C13_prefix_any_time :
+  forall c up l, SInv (Lay c up l) -> lost l = [] ->
+    exists rest, specQ c (ins l) = projQ (emitted l) ++ rest.
+Proof. exact prefix_any_time. Qed.
+Print Assumptions C13_prefix_any_time.
